@@ -166,7 +166,17 @@ class Shapes:
         if f[0] == "closure":
             g = self.facts.fns.get(f[1])
             if g:
-                return self.return_set(g)
+                rs = self.return_set(g)
+                if TOP in rs and argshape is not None:
+                    # a closure that hands its argument back (`|e| { ..; e }`): the value keeps its shape
+                    from .paths import PathEnum
+                    try:
+                        lv = [l for l in PathEnum(g, self.facts).run() if l.kind == "return"]
+                    except Exception:
+                        lv = []
+                    if lv and all(l.ret() == ("arg", 2) for l in lv):
+                        return (set(rs) - {TOP}) | {argshape}
+                return rs
         return {TOP}
 
     def _call(self, t, fn):
